@@ -10,64 +10,28 @@ use std::{mem::forget, time::Duration};
 const U: TransmissionMode = TransmissionMode::Unacknowledged;
 const NOW: u64 = 500;
 
-fn unack_receiver(closure: bool, with_md: bool, l: usize, k: usize, ch: &Chans) -> (RecvTransaction<ModelFs>, [u64; 4]) {
+fn unack_receiver(closure: bool, with_md: bool, shape: u8, ch: &Chans) -> (RecvTransaction<ModelFs>, [u64; 4], usize) {
     link_libc();
     verif::set_now(Duration::from_secs(NOW));
     let mut p = recv_parts(config(U), NakProcedure::Deferred(Duration::ZERO), ch);
     if with_md {
-        p.metadata = Some(metadata(true, l as u64, closure, ChecksumType::Modular, vec![]));
+        p.metadata = Some(metadata(true, 4, closure, ChecksumType::Modular, vec![]));
     }
-    let content: [u8; CAP] = kani::any();
-    let (s, b) = any_segments(k, l as u64);
-    let end = if k > 0 { b[2 * k - 1] as usize } else { 0 };
-    if k > 0 {
-        set_file(TMP, &content[..end]);
-        unsafe { TEMPS = 1 };
-        p.file_handle = Some(handle(TMP));
-    }
-    let mut held = 0;
-    let mut i = 0;
-    while i < k {
-        held += b[2 * i + 1] - b[2 * i];
-        i += 1;
-    }
-    p.saved_segments = s;
-    p.received_file_size = held;
-    p.nak_received_file_size = held;
+    let (b, k) = stage_shape(&mut p, shape);
     p.timer.inactivity = counter(10, 2, NOW, 0, false, false);
-    (RecvTransaction::verif_from_parts(p), b)
+    (RecvTransaction::verif_from_parts(p), b, k)
 }
 
-/// after any PDU an unacknowledged receiver has armed nothing but (with closure) a Finished
-fn only_finished_may_leave(t: &mut RecvTransaction<ModelFs>, ch: &Chans, closure: bool) {
-    assert!(t.verif_ack().is_none(), "never an ACK");
-    assert!(t.verif_naks().is_empty(), "never a NAK");
-    assert!(!t.verif_has_prompt(), "never a keep-alive / prompted NAK");
-    if verif::recv_has_pdu_to_send(t) && verif::recv_state(t) != TransactionState::Terminated {
-        assert!(closure, "without closure the receiver is silent");
-        match recv_send(t, ch) {
-            Some((_, PDU { payload: PDUPayload::Directive(Operations::Finished(f)), .. })) => {
-                assert!(f.condition == t.verif_condition() && f.delivery_code == t.verif_delivery_code() && f.file_status == t.verif_file_status(), "Finished carries the recorded outcome");
-            }
-            _ => assert!(false, "only Finished may leave an unacknowledged receiver"),
-        }
-    }
-}
-
-//# funcs=RecvTransaction::process_pdu (unacknowledged: FileData, Metadata, Prompt, Ack, Nak, KeepAlive, Finished),has_pdu_to_send,send_pdu; bound=closure on/off, 0-1 held segment in a 4-byte file, one PDU of each non-EOF kind; stubs=S1,S2,S3,S5
-th!(c18_q_recv_silent_non_eof, 10, {
+//# funcs=RecvTransaction::process_pdu (unacknowledged: Prompt, Ack, Nak, KeepAlive, Finished),has_pdu_to_send; bound=closure on/off, head of a 4-byte file held, one PDU of each non-data non-EOF kind; stubs=S1,S2,S3,S5
+th!(c18_q_recv_silent_directives, 10, {
     let ch = chans();
     let closure: bool = kani::any();
-    let (mut t, _b) = unack_receiver(closure, true, 4, 1, &ch);
+    let (mut t, _b, _k) = unack_receiver(closure, true, 2, &ch);
     let which: u8 = kani::any();
     kani::assume(which < 5);
     let r = match which {
-        0 => {
-            let off: u64 = kani::any();
-            kani::assume(off <= 3);
-            t.process_pdu(filedata(U, off, vec![kani::any()]))
-        }
-        1 => t.process_pdu(directive(U, Direction::ToReceiver, Operations::Prompt(PromptPDU { nak_or_keep_alive: if kani::any() { NakOrKeepAlive::Nak } else { NakOrKeepAlive::KeepAlive } }))),
+        0 => t.process_pdu(directive(U, Direction::ToReceiver, Operations::Prompt(PromptPDU { nak_or_keep_alive: NakOrKeepAlive::Nak }))),
+        1 => t.process_pdu(directive(U, Direction::ToReceiver, Operations::Prompt(PromptPDU { nak_or_keep_alive: NakOrKeepAlive::KeepAlive }))),
         2 => t.process_pdu(directive(U, Direction::ToReceiver, Operations::KeepAlive(KeepAlivePDU { progress: kani::any() }))),
         3 => t.process_pdu(directive(U, Direction::ToReceiver, Operations::Nak(NegativeAcknowledgmentPDU { start_of_scope: 0, end_of_scope: 4, segment_requests: vec![] }))),
         _ => t.process_pdu(directive(U, Direction::ToReceiver, Operations::Ack(PositiveAcknowledgePDU { directive: PDUDirective::EoF, directive_subtype_code: ACKSubDirective::Other, condition: Condition::NoError, transaction_status: TransactionStatus::Active }))),
@@ -79,11 +43,24 @@ th!(c18_q_recv_silent_non_eof, 10, {
     forget(t);
     forget(ch);
 });
+//# funcs=RecvTransaction::process_pdu(FileData) unacknowledged,store_file_data; bound=nothing held yet, 1 byte at offset 0..=3 (creates gaps): nothing is armed; stubs=S1,S2,S3,S5
+th!(c18_q_recv_silent_file_data, 10, {
+    let ch = chans();
+    let (mut t, _b, _k) = unack_receiver(kani::any(), true, 0, &ch);
+    let off: u64 = kani::any();
+    kani::assume(off <= 3);
+    t.process_pdu(filedata(U, off, vec![kani::any()])).unwrap();
+    assert!(!verif::recv_has_pdu_to_send(&t), "nothing to transmit before EOF");
+    assert!(t.verif_ack().is_none() && t.verif_naks().is_empty() && !t.verif_has_prompt(), "no ACK, NAK or keep-alive is ever armed");
+    kani::cover!(off == 3, "gap before the data");
+    forget(t);
+    forget(ch);
+});
 
-fn recv_eof(closure: bool, with_md: bool, k: usize) {
+fn recv_eof(closure: bool, with_md: bool, shape: u8) {
     let ch = chans();
     let l = 4usize;
-    let (mut t, b) = unack_receiver(closure, with_md, l, k, &ch);
+    let (mut t, b, k) = unack_receiver(closure, with_md, shape, &ch);
     let complete = with_md && k == 1 && b[0] == 0 && b[1] == l as u64;
     let cks: u32 = kani::any();
     let eof = EndOfFile { condition: Condition::NoError, checksum: cks, file_size: l as u64, fault_location: None };
@@ -116,14 +93,18 @@ fn recv_eof(closure: bool, with_md: bool, k: usize) {
     forget(t);
     forget(ch);
 }
-//# funcs=RecvTransaction::process_pdu(EoF) unacknowledged,check_file_size,finalize_receive,verify_checksum,finalize_file,prepare_finished,shutdown; bound=4-byte file, 1 held segment (symbolic sub-range), content+checksum symbolic, closure off; stubs=S1,S2,S3,S5
-th!(c18_q_recv_eof_k1, 12, { recv_eof(false, true, 1) });
-//# funcs=RecvTransaction::process_pdu(EoF) unacknowledged with closure requested,prepare_finished; bound=as above; stubs=S1,S2,S3,S5
-th!(c18_q_recv_eof_k1_closure, 12, { recv_eof(true, true, 1) });
-//# funcs=RecvTransaction::process_pdu(EoF) unacknowledged; bound=metadata missing, 0 held segments; stubs=S1,S2,S3,S5
+//# funcs=RecvTransaction::process_pdu(EoF) unacknowledged,check_file_size,finalize_receive,verify_checksum,finalize_file,shutdown; bound=4-byte file completely held, content+checksum symbolic, closure off; stubs=S1,S2,S3,S5
+th!(c18_q_recv_eof_complete, 12, { recv_eof(false, true, 1) });
+//# funcs=RecvTransaction::process_pdu(EoF) unacknowledged with closure,prepare_finished; bound=4-byte file completely held, closure on; stubs=S1,S2,S3,S5
+th!(c18_q_recv_eof_complete_closure, 12, { recv_eof(true, true, 1) });
+//# funcs=RecvTransaction::process_pdu(EoF) unacknowledged,finalize_receive,verify_checksum; bound=head of the 4-byte file missing (held (2,4)), content+checksum symbolic: no complete delivery may be reported; stubs=S1,S2,S3,S5
+th!(c18_q_recv_eof_head_missing, 12, { recv_eof(false, true, 3) });
+//# funcs=RecvTransaction::process_pdu(EoF) unacknowledged; bound=tail missing (held (0,2)), closure on; stubs=S1,S2,S3,S5
+th!(c18_t_recv_eof_tail_missing_closure, 12, { recv_eof(true, true, 2) });
+//# funcs=RecvTransaction::process_pdu(EoF) unacknowledged; bound=metadata missing, nothing held; stubs=S1,S2,S3,S5
 th!(c18_q_recv_eof_no_metadata, 12, { recv_eof(false, false, 0) });
-//# funcs=RecvTransaction::process_pdu(EoF) unacknowledged; bound=no data received at all for a 4-byte file, closure on/off; stubs=S1,S2,S3,S5
-th!(c18_t_recv_eof_k0, 12, { recv_eof(true, true, 0) });
+//# funcs=RecvTransaction::process_pdu(EoF) unacknowledged; bound=no data received at all for a 4-byte file, closure on; stubs=S1,S2,S3,S5
+th!(c18_t_recv_eof_nothing_held, 12, { recv_eof(true, true, 0) });
 
 fn unack_sender(closure: bool, ch: &Chans) -> SendTransaction<ModelFs> {
     link_libc();
